@@ -398,6 +398,9 @@ func (s *Session) replayOnce(prop string, o *Obligation, prev []map[string]strin
 		u.verifyFunc()
 	}()
 	u.finish()
+	if u.opaqueUsed {
+		return false, map[string]interface{}{"note": "the function keeps state in an object of another package (outside the model): a model of this obligation cannot be turned into a run"}
+	}
 	want := o.Name
 	if i := strings.Index(want, "/pool-"); i >= 0 {
 		j := strings.Index(want[i+1:], ":")
@@ -954,7 +957,7 @@ func (s *Session) genReplayTest(u *Unit, o *Obligation, mv map[string]string) (s
 		sb.WriteString("\tif panicked {\n\t\tfmt.Println(\"REPLAY-CONFIRMED: the real code panicked on an input for which the contract allows no panic:\", msg)\n\t}\n")
 	case o.Kind == "panics-iff" && strings.Contains(lbl, "unmodified"):
 		sb.WriteString("\tif panicked && modified {\n\t\tfmt.Println(\"REPLAY-CONFIRMED: the real code modified state before panicking\")\n\t}\n")
-	case o.Kind == "writes-nothing" || o.Kind == "writes":
+	case (o.Kind == "writes-nothing" || o.Kind == "writes") && !u.declaresAnyWrite():
 		sb.WriteString("\tif modified {\n\t\tfmt.Println(\"REPLAY-CONFIRMED: a read-only operation modified its operands\")\n\t}\n")
 	default:
 		sb.WriteString("\tfmt.Println(\"REPLAY-INCONCLUSIVE: no executable oracle for this obligation kind; see REPLAY-RESULT / REPLAY-MODIFIED\")\n")
